@@ -16,7 +16,7 @@ theorem gLoop_ok_path (s : Store) (stop : Bool) (u : Nat) (rec : Nat → GSt →
     intro st
     rw [gLoop_cons]
     cases ht : i.target with
-    | none => exact ih st
+    | none => exact ih (gSkip st)
     | some v =>
       simp only
       by_cases hv : v < s.length
@@ -80,7 +80,7 @@ theorem gLoop_fuel_mono (s : Store) (stop : Bool) (u : Nat) (rec rec' : Nat → 
     intro st
     rw [gLoop_cons, gLoop_cons]
     cases ht : i.target with
-    | none => exact ih st
+    | none => exact ih (gSkip st)
     | some v =>
       simp only
       by_cases hv : v < s.length
@@ -155,7 +155,7 @@ theorem gLoop_fuel_depth (s : Store) (stop : Bool) (u : Nat) (rec : Nat → GSt 
     intro st hP
     rw [gLoop_cons]
     cases ht : i.target with
-    | none => exact ih st hP
+    | none => exact ih (gSkip st) hP
     | some v =>
       simp only
       by_cases hv : v < s.length
@@ -222,7 +222,7 @@ theorem gLoop_fuel_unv (s : Store) (stop : Bool) (lim u m : Nat) (rec : Nat → 
     intro st h hm
     rw [gLoop_cons]
     cases ht : i.target with
-    | none => exact ih st h hm
+    | none => exact ih (gSkip st) h.skip.gw hm
     | some v =>
       simp only
       by_cases hv : v < s.length
